@@ -556,7 +556,7 @@ func (w *world) obs() {
 			if p.PeerAddress.IsValid() {
 				src = p.PeerAddress.String()
 			}
-			ps = append(ps, fmt.Sprintf("(%s %d %s %s %s %d)", src, p.RemoteID, sx.B(p.Best), sx.B(p.Stale), attrSummary(p.Attrs), p.Age-w.start))
+			ps = append(ps, fmt.Sprintf("(%s %d %s %s %s %d %d)", src, p.RemoteID, sx.B(p.Best), sx.B(p.Stale), attrSummary(p.Attrs), p.Age-w.start, p.LocalID))
 		}
 		rib = append(rib, "("+prefix.String()+" "+strings.Join(ps, " ")+")")
 	})
